@@ -15,7 +15,7 @@ import (
 // has the value stored. Calls that receive the base pointer are definitions of every field (they may move the cursor).
 type FieldVersions struct {
 	fn   *ssa.Function
-	defs map[string][]ssa.Instruction             // field key -> defining instructions (stores, clobbering calls)
+	defs map[string][]ssa.Instruction                // field key -> defining instructions (stores, clobbering calls)
 	in   map[string]map[*ssa.BasicBlock]map[int]bool // field key -> block -> reaching def ids at block entry (-1 = value at function entry)
 }
 
